@@ -35,6 +35,7 @@ def run(ctx):
         r8_notifier_callable(ctx, facts, cfg)
         r10_error_owns_its_text(ctx, facts, cfg)
         r11_error_text_in_place(ctx, facts, cfg)
+        r13_gives_up_the_file_only_when_it_is_gone(ctx, facts, cfg)
     # state that is reused from one statement to the next must not carry a failed (or any earlier) statement into the next one:
     # the shared argument store (= C04.R6) and the JSON sink's message buffer (= C19.R3)
     from rules import c04, c19
@@ -43,6 +44,8 @@ def run(ctx):
     c19.r3(Renamed(ctx, "C19.R3", "C10.R7"), ctx.facts("core.cpp", "A"))
     # the error path of a statement with named args (fewer arguments than names) writes within the list it sized (= C19.R2)
     c19.r2(Renamed(ctx, "C19.R2", "C10.R9"), ctx.facts("core.cpp", "A"))
+    # the backend thread leaves the template scanner for every template, also a malformed one (= C19.R5d)
+    c19.r5d_scanner_terminates(Renamed(ctx, "C19.R5d", "C10.R12"), ctx.facts("core.cpp", "A"))
 
 
 def window_fns(facts, cfg):
@@ -330,6 +333,43 @@ def r10_error_owns_its_text(ctx, facts, cfg):
     ctx.ob("C10.R10", "QuillError:owns-its-text", not nonown and bool(owned) and from_owned and init_ok,
            "no member merely refers to memory owned elsewhere (%s), every constructor copies / moves its argument into the owned string "
            "(%s, %d constructor(s)) and what() returns that string's characters (%s)" % (nonown, init_ok, len(ctors), from_owned), loc=crec.get("loc", ""))
+
+
+def r13_gives_up_the_file_only_when_it_is_gone(ctx, facts, cfg):
+    """R13: FileSink::flush_sink closes its open stream (to re-create a file the user deleted) only on a definite 'does not exist'
+    answer. The throwing overload of fs::exists gives that (any other stat failure leaves by exception, is reported, and the open
+    stream stays); the error_code overload answers false for *every* failure, so its error has to be looked at before the close —
+    otherwise a transient stat error (ELOOP, EACCES on a parent, EIO) closes a healthy stream, the re-open fails, and the statements
+    that follow are lost although only the flush was at fault."""
+    f = facts.need("quill::FileSink::flush_sink", cfg)[0]
+    g = f.g
+    closes = [c for c in f.calls(r"quill::FileSink::close_file$|::fclose$")]
+    if not closes:
+        ctx.ob("C10.R13", "FileSink::flush_sink:file-given-up-only-when-gone", True, "flush_sink never closes the open stream", fn=f)
+        return
+    ex = [c for c in f.calls(r"^std::filesystem::(__cxx11::)?(exists|status|symlink_status|is_regular_file)$")]
+    if not ex:
+        raise AnalysisBroken("FileSink::flush_sink closes the stream but no fs::exists / fs::status call decides it")
+    cp = [p_ for c in closes for p_ in g.positions(c)]
+    if g.exists_path([g.entry_node], cp, avoid_nodes=[p_ for e in ex for p_ in g.positions(e)]):
+        raise AnalysisBroken("FileSink::flush_sink: a close of the stream is not preceded by the existence test")
+    ok, why = True, []
+    for e in ex:
+        ec = [var_ref(strip(a, casts=True)) for a in e.get("args", [])[1:] if "error_code" in ((a.get("ty") or "") if isnode(a) else "")]
+        ec = [v for v in ec if v is not None]
+        if len(e.get("args", [])) < 2:
+            continue        # throwing overload
+        if not ec:
+            raise AnalysisBroken("FileSink::flush_sink: second argument of %s is not an error_code variable" % short(e.get("callee", "")))
+        inside = {id(x) for x in walk(e)}       # handing the variable to the call is not looking at it
+        looks = [tnode(g, b) for b in g.blocks if g.term_cond(b) is not None and
+                 any(var_ref(x) in ec and id(x) not in inside for x in walk(g.term_cond(b)) if isnode(x) and x.get("k") == "DeclRefExpr")]
+        if g.exists_path(g.positions(e), cp, avoid_nodes=looks):
+            ok = False
+            why.append("%s answers false for every failure and the stream is closed without looking at the error" % e.get("loc"))
+    ctx.ob("C10.R13", "FileSink::flush_sink:file-given-up-only-when-gone", ok,
+           "the open stream is closed in flush_sink only after a definite 'the file does not exist': the throwing overload of fs::exists, or "
+           "the error_code overload with the error examined before the close (%s)" % ("; ".join(why) or "%d existence test(s), %d close(s)" % (len(ex), len(closes))), fn=f)
 
 
 def r11_error_text_in_place(ctx, facts, cfg):
